@@ -4,7 +4,7 @@ from tools import vlib, t3
 from checks import c06
 
 MODULE = "PropC07"
-THEOREMS = ["C07_code_conforms", "C07_progress", "C07_work_conserving", "C07_work_conserving_general", "C07_oversize_rejected_code", "C07_no_mutex_refuted", "C07_cone_conforms", "C07_spawn_never_waits_for_the_queue"]
+THEOREMS = ["C07_code_conforms", "C07_progress", "C07_work_conserving", "C07_work_conserving_general", "C07_oversize_rejected_code", "C07_no_mutex_refuted", "C07_cone_conforms", "C07_spawn_never_waits_for_the_queue", "C07_queue_work_conserving", "C07_capped_queue_refuted"]
 
 RDV = ('touch "$VERIF_RDV/$$.{p:q}"; n=0; while [ $(ls "$VERIF_RDV" | wc -l) -lt %d ]; do sleep 0.01; n=$((n+1)); '
        'if [ $n -gt 800 ]; then echo RDV-TIMEOUT >&2; exit 3; fi; done')
